@@ -134,3 +134,20 @@ var _ = pr.AutoF
 //@   requires box != nil
 //@   call function#2 assert b.Height == b.MaxHeight && b.MarginTop == old(b.MarginTop) && b.MarginBottom == old(b.MarginBottom)
 //@   call function#3 assert b.Height == b.MinHeight && b.MarginTop == old(b.MarginTop) && b.MarginBottom == old(b.MarginBottom)
+
+// css-page-3 §4-5 and css-break-3 §3.1: the page type handed to the page maker.
+// Pages alternate right/left; the side requested by a forced break is the break value for
+// left/right, and for recto/verso it depends on the root direction (recto = right in ltr,
+// left in rtl); a blank page is inserted exactly when the requested side is not the side of
+// the page being made (or pending footnotes remain with no content); a blank page is unnamed.
+//@ func (*layoutContext).remakePage
+//@   props C12
+//@   modifies anything
+//@   let brk = tmp.InitialNextPage.Break
+//@   let ltr = old(rootBox.Box().Style).GetDirection() == "ltr"
+//@   let want = ite(brk == "left" || brk == "right", brk, ite(brk == "recto", ite(ltr, "right", "left"), ite(brk == "verso", ite(ltr, "left", "right"), "")))
+//@   call makePage#1 assert arg2.Side == ite(tmp.RightPage, "right", "left")
+//@   call makePage#1 assert arg2.First == (index == 0) && arg2.Index == index && arg4 == index + 1
+//@   call makePage#1 assert arg2.Blank == ((want != "" && want != arg2.Side) || (old(len(context.reportedFootnotes)) != 0 && tmp.InitialResumeAt == nil))
+//@   call makePage#1 assert (arg2.Blank ==> arg2.Name == "") && (!arg2.Blank ==> arg2.Name == string(tmp.InitialNextPage.Page))
+//@   call makePage#1 assert arg3 == tmp.InitialResumeAt
